@@ -58,11 +58,35 @@ impl Pos {
     }
 }
 
+/// `userPOS` of a provider's settings: written as "allow" / "forbid", or the key left out
+pub type PosMode = Option<bool>;
+pub fn mode_coq(m: &PosMode) -> String {
+    match m {
+        Some(b) => format!("(M (Some {}))", cbool(*b)),
+        None => "(M None)".to_string(),
+    }
+}
+pub fn mode_json_field(m: &PosMode) -> String {
+    match m {
+        Some(true) => ",\"userPOS\":\"allow\"".to_string(),
+        Some(false) => ",\"userPOS\":\"forbid\"".to_string(),
+        None => String::new(),
+    }
+}
+/// a mode that must not let an absent POS through: written as forbid, or not written at all
+pub fn forbid_mode(rng: &mut Rng) -> PosMode {
+    if rng.chance(1, 2) {
+        Some(false)
+    } else {
+        None
+    }
+}
+
 #[derive(Clone, Debug)]
 enum Oov {
-    Simple { l: i128, r: i128, c: i128, p: Pos, allow: bool },
-    Regex { l: i128, r: i128, c: i128, p: Pos, allow: bool },
-    Mecab { lines: Vec<(usize, i128, i128, i128, Pos)>, allow: bool },
+    Simple { l: i128, r: i128, c: i128, p: Pos, allow: PosMode },
+    Regex { l: i128, r: i128, c: i128, p: Pos, allow: PosMode },
+    Mecab { lines: Vec<(usize, i128, i128, i128, Pos)>, allow: PosMode },
 }
 
 #[derive(Clone, Debug)]
@@ -85,15 +109,15 @@ impl Case {
     fn coq_cfg(&self) -> String {
         let inh = clist(self.inhibit.iter().map(|ps| clist(ps.iter().map(|(a, b)| format!("({}, {})", czz(*a), czz(*b))))));
         let oov = clist(self.oov.iter().map(|o| match o {
-            Oov::Simple { l, r, c, p, allow } => format!("Simple {} {} {} {} {}", czz(*l), czz(*r), czz(*c), p.coq(), cbool(*allow)),
-            Oov::Regex { l, r, c, p, allow } => format!("Regex {} {} {} {} {}", czz(*l), czz(*r), czz(*c), p.coq(), cbool(*allow)),
+            Oov::Simple { l, r, c, p, allow } => format!("Simple {} {} {} {} {}", czz(*l), czz(*r), czz(*c), p.coq(), mode_coq(allow)),
+            Oov::Regex { l, r, c, p, allow } => format!("Regex {} {} {} {} {}", czz(*l), czz(*r), czz(*c), p.coq(), mode_coq(allow)),
             Oov::Mecab { lines, allow } => format!(
                 "Mecab {} {}",
                 clist(lines.iter().map(|(_, l, r, c, p)| format!("({}, {}, {}, {})", czz(*l), czz(*r), czz(*c), p.coq()))),
-                cbool(*allow)
+                mode_coq(allow)
             ),
         }));
-        format!("(mkCfg {} {})", inh, oov)
+        format!("(fun M : option bool -> bool => mkCfg {} {})", inh, oov)
     }
     fn json(&self) -> Value {
         let num = |x: &i128| Value::String(x.to_string());
@@ -117,10 +141,10 @@ impl Case {
                 .unwrap()
                 .iter()
                 .map(|o| match o["t"].as_str().unwrap() {
-                    "simple" => Oov::Simple { l: num(&o["l"]), r: num(&o["r"]), c: num(&o["c"]), p: Pos::from_json(&o["p"]), allow: o["allow"].as_bool().unwrap() },
-                    "regex" => Oov::Regex { l: num(&o["l"]), r: num(&o["r"]), c: num(&o["c"]), p: Pos::from_json(&o["p"]), allow: o["allow"].as_bool().unwrap() },
+                    "simple" => Oov::Simple { l: num(&o["l"]), r: num(&o["r"]), c: num(&o["c"]), p: Pos::from_json(&o["p"]), allow: o["allow"].as_bool() },
+                    "regex" => Oov::Regex { l: num(&o["l"]), r: num(&o["r"]), c: num(&o["c"]), p: Pos::from_json(&o["p"]), allow: o["allow"].as_bool() },
                     _ => Oov::Mecab {
-                        allow: o["allow"].as_bool().unwrap(),
+                        allow: o["allow"].as_bool(),
                         lines: o["lines"].as_array().unwrap().iter().map(|l| (l[0].as_u64().unwrap() as usize, num(&l[1]), num(&l[2]), num(&l[3]), Pos::from_json(&l[4]))).collect(),
                     },
                 })
@@ -134,17 +158,17 @@ impl Case {
         for o in &self.oov {
             match o {
                 Oov::Simple { l, r, c, p, allow } => oov.push(format!(
-                    "{{\"class\":\"com.worksap.nlp.sudachi.SimpleOovPlugin\",\"oovPOS\":{},\"leftId\":{},\"rightId\":{},\"cost\":{},\"userPOS\":\"{}\"}}",
-                    serde_json::to_string(&p.strings()).unwrap(), l, r, c, if *allow { "allow" } else { "forbid" }
+                    "{{\"class\":\"com.worksap.nlp.sudachi.SimpleOovPlugin\",\"oovPOS\":{},\"leftId\":{},\"rightId\":{},\"cost\":{}{}}}",
+                    serde_json::to_string(&p.strings()).unwrap(), l, r, c, mode_json_field(allow)
                 )),
                 Oov::Regex { l, r, c, p, allow } => oov.push(format!(
-                    "{{\"class\":\"com.worksap.nlp.sudachi.RegexOovProvider\",\"regex\":\"[a-z0-9]+\",\"oovPOS\":{},\"leftId\":{},\"rightId\":{},\"cost\":{},\"userPOS\":\"{}\"}}",
-                    serde_json::to_string(&p.strings()).unwrap(), l, r, c, if *allow { "allow" } else { "forbid" }
+                    "{{\"class\":\"com.worksap.nlp.sudachi.RegexOovProvider\",\"regex\":\"[a-z0-9]+\",\"oovPOS\":{},\"leftId\":{},\"rightId\":{},\"cost\":{}{}}}",
+                    serde_json::to_string(&p.strings()).unwrap(), l, r, c, mode_json_field(allow)
                 )),
                 Oov::Mecab { allow, .. } => {
                     oov.push(format!(
-                        "{{\"class\":\"com.worksap.nlp.sudachi.MeCabOovPlugin\",\"charDef\":\"char.def\",\"unkDef\":\"{}\",\"userPOS\":\"{}\"}}",
-                        unk_files[k], if *allow { "allow" } else { "forbid" }
+                        "{{\"class\":\"com.worksap.nlp.sudachi.MeCabOovPlugin\",\"charDef\":\"char.def\",\"unkDef\":\"{}\"{}}}",
+                        unk_files[k], mode_json_field(allow)
                     ));
                     k += 1;
                 }
@@ -166,6 +190,28 @@ impl Case {
             oov.join(","),
             inh.join(",")
         )
+    }
+    /// a provider that names a POS absent from the dictionary (and not registered by an earlier provider with a written
+    /// "allow") although its own userPOS is not a written "allow": (provider, how userPOS was given)
+    fn unallowed_absent_pos(&self) -> Option<(&'static str, &'static str)> {
+        let mut registered: Vec<u64> = vec![];
+        for o in &self.oov {
+            let (name, mode, keys): (&'static str, &PosMode, Vec<&Pos>) = match o {
+                Oov::Simple { p, allow, .. } => ("SimpleOovPlugin", allow, vec![p]),
+                Oov::Regex { p, allow, .. } => ("RegexOovProvider", allow, vec![p]),
+                Oov::Mecab { lines, allow } => ("MeCabOovPlugin (unk.def)", allow, lines.iter().map(|l| &l.4).collect()),
+            };
+            for p in keys {
+                if p.arity_ok && p.key >= SYS_POS.len() as u64 && !registered.contains(&p.key) {
+                    match mode {
+                        Some(true) => registered.push(p.key),
+                        Some(false) => return Some((name, "\"forbid\"")),
+                        None => return Some((name, "not mentioned")),
+                    }
+                }
+            }
+        }
+        None
     }
     /// independent oracle: what the property demands of an accepted configuration
     fn valid(&self) -> bool {
@@ -344,7 +390,7 @@ fn emit(sink: &mut Sink, env: &mut Env, case: &Case, shape: &str, verbose: bool)
     let nodes = clist(out.nodes.iter().map(|ns| clist(ns.iter().map(|(l, r, c, p)| format!("({}, {}, {}, {})", cz(*l as i64), cz(*r as i64), cz(*c as i64), cn(*p))))));
     let cells = clist(out.cells.iter().map(|(l, r, v)| format!("({}, {}, {})", cz(*l), cz(*r), cz(*v))));
     let term = format!(
-        "check_load {} (mkGram {} {} [0%N; 1%N; 2%N]) {} {} {} {} {}",
+        "check_load_m {} (mkGram {} {} [0%N; 1%N; 2%N]) {} {} {} {} {}",
         cbool(env.debug), cz(case.nl), cz(case.nr), case.coq_cfg(), out.status, nodes, cells, cbool(out.analysis_ok)
     );
     let valid = case.valid();
@@ -373,6 +419,9 @@ fn emit(sink: &mut Sink, env: &mut Env, case: &Case, shape: &str, verbose: bool)
     // Rust-side oracle
     if out.status == "SPanic" {
         sink.fail(id, &format!("loading panicked instead of returning an error: {}", out.msg), "");
+    } else if out.status == "SOk" && case.unallowed_absent_pos().is_some() {
+        sink.fail(id, &format!("{} names a part of speech that is not in the dictionary while its userPOS is {}, yet the configuration loaded (the POS was registered without being explicitly allowed)",
+            case.unallowed_absent_pos().unwrap().0, case.unallowed_absent_pos().unwrap().1), "");
     } else if out.status == "SOk" && !valid {
         sink.fail(id, "configuration with an out-of-range connection id / cost / malformed POS was accepted", "");
     } else if out.status == "SOk" {
@@ -410,19 +459,22 @@ fn cost_grid(rng: &mut Rng) -> i128 {
 fn good_cost(rng: &mut Rng) -> i128 {
     *rng.pick(&[-32768i128, -100, 0, 5000, 32767])
 }
-fn gen_pos(rng: &mut Rng, bad: bool) -> (Pos, bool) {
-    // (pos, allow): bad => absent + forbid, or wrong arity
+fn gen_pos(rng: &mut Rng, bad: bool) -> (Pos, PosMode) {
+    // (pos, userPOS): bad => absent + (forbid written, or userPOS not mentioned), or wrong arity.
+    // Wherever user-defined POS are not to be allowed the key is as often left out as written
+    let m = |allow: bool, rng: &mut Rng| -> PosMode { if allow { Some(true) } else { forbid_mode(rng) } };
     if bad {
         if rng.chance(1, 2) {
-            (Pos { arity_ok: true, key: 100 + rng.below(3) }, false)
+            (Pos { arity_ok: true, key: 100 + rng.below(3) }, forbid_mode(rng))
         } else {
-            (Pos { arity_ok: false, key: rng.below(3) }, rng.chance(1, 2))
+            let a = rng.chance(1, 2);
+            (Pos { arity_ok: false, key: rng.below(3) }, m(a, rng))
         }
     } else {
         match rng.below(3) {
-            0 => (Pos { arity_ok: true, key: rng.below(3) }, false),
-            1 => (Pos { arity_ok: true, key: rng.below(3) }, true),
-            _ => (Pos { arity_ok: true, key: 100 + rng.below(3) }, true),
+            0 => (Pos { arity_ok: true, key: rng.below(3) }, forbid_mode(rng)),
+            1 => (Pos { arity_ok: true, key: rng.below(3) }, Some(true)),
+            _ => (Pos { arity_ok: true, key: 100 + rng.below(3) }, Some(true)),
         }
     }
 }
@@ -455,7 +507,7 @@ fn gen_oov(rng: &mut Rng, kind: u64, nl: i64, nr: i64, bad: u64) -> Oov {
                     lines.push((cat, l, r, c, p.clone()));
                 } else {
                     let (p2, _) = gen_pos(rng, false);
-                    let p2 = if allow { p2 } else { Pos { arity_ok: true, key: rng.below(3) } };
+                    let p2 = if allow == Some(true) { p2 } else { Pos { arity_ok: true, key: rng.below(3) } };
                     lines.push((cat, good(rng, nr), good(rng, nl), good_cost(rng), p2));
                 }
             }
@@ -465,12 +517,12 @@ fn gen_oov(rng: &mut Rng, kind: u64, nl: i64, nr: i64, bad: u64) -> Oov {
 }
 
 fn baseline_oov() -> Oov {
-    Oov::Simple { l: 0, r: 0, c: 3000, p: Pos { arity_ok: true, key: 0 }, allow: false }
+    Oov::Simple { l: 0, r: 0, c: 3000, p: Pos { arity_ok: true, key: 0 }, allow: None }
 }
 
 pub fn run(args: &Args) {
     let mut sink = Sink::new("C20", &args.out, &["Model.GuardLang", "Model.Params", "Model.UnkDefText"], args.seed, &args.tier);
-    sink.rule("dictionaries with nl x nr matrices (1..10 square and non-square, a few 32767-sized) x configurations of SimpleOovPlugin / RegexOovProvider / MeCabOovPlugin(unk.def) / InhibitConnectionPlugin where one field (leftId, rightId, cost, POS, pair member) is drawn from the boundary grid {-1,0,d-1,d,d+1,other dim-1..+1,32767,32768,65535,65536,+-i16 ends,i64 max(+1)}; POS present/absent x userPOS allow/forbid x wrong arity; non-trivial = a supplied id within 1 of a dimension or configuration invalid; distinct by generated Coq term");
+    sink.rule("dictionaries with nl x nr matrices (1..10 square and non-square, a few 32767-sized) x configurations of SimpleOovPlugin / RegexOovProvider / MeCabOovPlugin(unk.def) / InhibitConnectionPlugin where one field (leftId, rightId, cost, POS, pair member) is drawn from the boundary grid {-1,0,d-1,d,d+1,other dim-1..+1,32767,32768,65535,65536,+-i16 ends,i64 max(+1)}; POS present/absent x userPOS allow / forbid / not mentioned (as often left out as written wherever user POS must not be allowed) x wrong arity; non-trivial = a supplied id within 1 of a dimension or configuration invalid; distinct by generated Coq term");
     let mut env = Env::new(&args.work);
     if let Some(p) = &args.replay {
         let v: Value = serde_json::from_str(&std::fs::read_to_string(p).unwrap()).unwrap();
@@ -490,9 +542,9 @@ pub fn run(args: &Args) {
     let p0 = Pos { arity_ok: true, key: 0 };
     for (nl, nr) in [(10i64, 10i64), (3, 2), (2, 3), (1, 1)] {
         for (l, r) in [(nr as i128, 0i128), (0, nl as i128), (nr as i128 - 1, nl as i128 - 1), (nl as i128 - 1, nr as i128 - 1), (-1, 0), (0, -1), (65536, 0)] {
-            emit(&mut sink, &mut env, &Case { nl, nr, inhibit: vec![], oov: vec![Oov::Simple { l, r, c: 0, p: p0.clone(), allow: false }] }, "directed_simple", false);
-            emit(&mut sink, &mut env, &Case { nl, nr, inhibit: vec![], oov: vec![Oov::Regex { l, r, c: 0, p: p0.clone(), allow: false }] }, "directed_regex", false);
-            emit(&mut sink, &mut env, &Case { nl, nr, inhibit: vec![], oov: vec![baseline_oov(), Oov::Mecab { lines: vec![(1, l, r, 0, p0.clone())], allow: false }] }, "directed_unk", false);
+            emit(&mut sink, &mut env, &Case { nl, nr, inhibit: vec![], oov: vec![Oov::Simple { l, r, c: 0, p: p0.clone(), allow: Some(false) }] }, "directed_simple", false);
+            emit(&mut sink, &mut env, &Case { nl, nr, inhibit: vec![], oov: vec![Oov::Regex { l, r, c: 0, p: p0.clone(), allow: None }] }, "directed_regex", false);
+            emit(&mut sink, &mut env, &Case { nl, nr, inhibit: vec![], oov: vec![baseline_oov(), Oov::Mecab { lines: vec![(1, l, r, 0, p0.clone())], allow: None }] }, "directed_unk", false);
         }
         for (a, b) in [(nl as i128, 0i128), (0, nr as i128), (nl as i128 - 1, nr as i128 - 1), (nr as i128 - 1, nl as i128 - 1), (-1, 0), (0, -1), (32768, 0), (0, 0)] {
             emit(&mut sink, &mut env, &Case { nl, nr, inhibit: vec![vec![(a, b)]], oov: vec![baseline_oov()] }, "directed_inhibit", false);
@@ -500,6 +552,15 @@ pub fn run(args: &Args) {
     }
     emit(&mut sink, &mut env, &Case { nl: 32767, nr: 3, inhibit: vec![vec![(-1, 0)]], oov: vec![baseline_oov()] }, "directed_inhibit_wrap_big", false);
     emit(&mut sink, &mut env, &Case { nl: 3, nr: 3, inhibit: vec![], oov: vec![] }, "no_oov_provider", false);
+    // POS present / absent x userPOS "allow" / "forbid" / not mentioned, for every provider kind
+    for key in [0u64, 100] {
+        for mode in [Some(true), Some(false), None] {
+            let p = Pos { arity_ok: true, key };
+            emit(&mut sink, &mut env, &Case { nl: 3, nr: 3, inhibit: vec![], oov: vec![Oov::Simple { l: 0, r: 0, c: 0, p: p.clone(), allow: mode }] }, "directed_pos_mode_simple", false);
+            emit(&mut sink, &mut env, &Case { nl: 3, nr: 3, inhibit: vec![], oov: vec![Oov::Regex { l: 0, r: 0, c: 0, p: p.clone(), allow: mode }] }, "directed_pos_mode_regex", false);
+            emit(&mut sink, &mut env, &Case { nl: 3, nr: 3, inhibit: vec![], oov: vec![baseline_oov(), Oov::Mecab { lines: vec![(1, 0, 0, 0, p.clone())], allow: mode }] }, "directed_pos_mode_unk", false);
+        }
+    }
     // ---- structured stream
     let n = args.n(700, 12000);
     for _ in 0..n {
